@@ -3,8 +3,9 @@
    no vector clocks, no caches, no election.  It is evaluated on TRACES (operation, observation)
    -- the implementation's by the correspondence driver, the model's by the theorems.
    The graph keeps, per accepted event, its ancestors-or-self set (built parents-first), so that
-   forkless cause can be evaluated quickly; [fc_graph] is the same definition as spec/FcSpec.v
-   [fc_spec] (see proofs/AbftSpecFacts.v and the cross-check in the driver). *)
+   forkless cause can be evaluated quickly; [fc_graph] is meant to be the same definition as
+   spec/FcSpec.v [fc_spec]; the equality is not proved, the driver of C04 cross-checks the two on all
+   pairs of every generated DAG with at most 24 accepted events (extract/C02/abft_drv.ml fc_defs_agree). *)
 From Coq Require Import List Arith NArith Bool.
 From LV Require Import model.VecIndex model.Abft model.AbftRun.
 Import ListNotations.
